@@ -1,5 +1,9 @@
 import GrmVerif.Lemmas.YaccBuild7
 import GrmVerif.Lemmas.YaccLex
+import GrmVerif.Lemmas.YaccRoundtrip8
+import GrmVerif.Lemmas.YaccFile
+import GrmVerif.Lemmas.YaccDeclView
+import GrmVerif.Lemmas.YaccProdSpan
 import GrmVerif.Extracted
 /-!
 # C10 — a grammar object is a faithful, well-formed image of its `.y` source
@@ -12,8 +16,12 @@ Property theorems only.
   The theorems are about every AST, every kind, every iteration order of the implicit-token map.
 * Stage B (lexical layer): `Model/YaccLex.lean` is a transcription of `parse_ws` (REPAIRED: a newline
   inside `/* */` no longer falls through to the end-of-comment test) and of the other lexical helpers.
-* The text layer between them (declaration and rule loops) is NOT modelled: it is tied by the
-  generator oracle of `harness/src/props/c10.rs` (real AST = the AST the rendering defines).
+* Stage T (text → AST): `Model/YaccParse.lean` is the line-by-line model of the text parser (written
+  for C12 and tied to the real parser on every run by C12's `Iy`/`My` lines). The theorems of the
+  section "Stage T" say that the rules section of a canonically rendered description
+  (`Lemmas/YaccRender.lean`) is read back exactly: `parse_rules (render rs) = image rs`. The harness
+  oracle (`harness/src/props/c10.rs`: real AST = the AST the rendering defines) remains for the
+  generator's own, freer layout.
 -/
 namespace GrmVerif.C10
 open GrmVerif GrmVerif.YaccBuild
@@ -429,6 +437,279 @@ theorem ws_unterminated {s : List Char} {p : Nat} (h : parseWs true s = .error (
       NoClose tail :=
   ws_spec_unterminated h
 
+/-! ### Stage T: the rules section of a rendered description is read back exactly -/
+
+section StageT
+open GrmVerif.YaccRender GrmVerif.YaccParse
+open GrmVerif.Header (byteLen sliceRange)
+
+/-- `g` is the flag "the kind is `YaccKind::Grmtools`" (rule headers are then `name -> type :`) -/
+def isGrm (kind : YaccParse.Kind) : Bool := decide (kind = .grmtools)
+
+/-- **Round trip of the rules section, every `YaccKind`.** Take ANY description `rs` of a rules
+section (rules in order; each a name, for `Grmtools` an action type, and one or more productions;
+each production an optional `%empty`, symbols — quoted `'x'`/`"x"` or bare names —, an optional
+`%prec tok`, an optional action) that is well formed (`wfRules`, decidable: names match
+`[a-zA-Z_.][a-zA-Z0-9_.]*`; quoted texts are non-empty, contain no newline and, after their first
+character, not their quote; action texts have balanced braces as `parse_action` counts them; `%empty`
+only without symbols; for `Grmtools` the type contains no single `:` and does not begin with white
+space or `/`). Render it canonically (`renderRules`: `name: sym sym %prec tok {action} | … ;\n`,
+for `Grmtools` `name -> type: …`, single spaces, one rule per line) after ANY text `pre` and the line
+`%%\n`, and follow it by the end of the text or by `%%` and ANY programs text. Then the model of
+`parse_rules`, started at the `%%`, in ANY state, with ANY fuel above the length of the text (`parse`
+hands out `|src| + 1`), returns normally — no error, no panic, fuel not exhausted — exactly at the
+end of the rendered rules, and the state it returns is `runRules`, the image of the description
+computed WITHOUT parsing (`Lemmas/YaccRender.lean`): every rule added once with the span of its FIRST
+definition, every production appended to `prods` in source order under its rule's name (a rule
+defined twice contributes its productions in order of appearance), every symbol in order with its
+kind, `%prec`, action presence, every quoted or `%prec` token inserted in the token set at its first
+appearance (`image_productions`, `image_rule_names`, `image_token_names`), every span at the byte
+offsets of the item's text (`image_spans`). -/
+theorem parse_rules_roundtrip (pre post : List Char) (rs : List RRule) (kind : YaccParse.Kind)
+    (fuel : Nat) (st : YaccParse.St) (hw : wfRules (isGrm kind) rs = true)
+    (hp : post = [] ∨ ∃ t, post = '%' :: '%' :: t)
+    (hf : byteLen (pre ++ '%' :: '%' :: '\n' :: (renderRules (isGrm kind) rs ++ post)) < fuel) :
+    parseRules (pre ++ '%' :: '%' :: '\n' :: (renderRules (isGrm kind) rs ++ post)) kind fuel (byteLen pre) st
+        = .ok (runRules (isGrm kind) (byteLen pre + 3) rs (St.incNl 1 st)) ∧
+      (runRules (isGrm kind) (byteLen pre + 3) rs (St.incNl 1 st)).1
+        = byteLen pre + 3 + byteLen (renderRules (isGrm kind) rs) := by
+  have hat : At (pre ++ '%' :: '%' :: '\n' :: (renderRules (isGrm kind) rs ++ post)) (byteLen pre)
+      ('%' :: '%' :: '\n' :: (renderRules (isGrm kind) rs ++ post)) := Header.dropBytes_append _ _
+  have hlen : (renderRules (isGrm kind) rs).length < fuel := by
+    have h1 := length_le_byteLen (pre ++ '%' :: '%' :: '\n' :: (renderRules (isGrm kind) rs ++ post))
+    simp only [List.length_append, List.length_cons] at h1
+    omega
+  have hok := ruleOK_of_wf hw hlen
+  have hk : kindIs (isGrm kind) kind := by simp [kindIs, isGrm]
+  exact ⟨parseRules_at hk rs st post hat hok hp (by have := (len_rules (isGrm kind) rs).1; omega),
+    runRules_pos _ _ _ _⟩
+
+/-- **Round trip of the declarations.** Take ANY list `ds` of declarations out of `%start name`,
+`%token tok…`, `%left`/`%right`/`%nonassoc tok…`, `%avoid_insert tok…`, `%implicit_tokens tok…` (Eco),
+`%expect n`, `%expect-rr n`, `%actiontype type` (Original), `%parse-param name: type`, `%epp tok "text"`
+that is well formed
+(`wfDecls`, decidable: names and tokens as in the rules section; numbers are non-empty digit strings
+below 2⁶⁴; types run to the end of their line and begin with a character that is not white space or
+`/`; an `%epp` text has no newline and no backslash, its `"` are written `\"`; the kind-specific
+declarations only for their kind) and not repetitive (`runDecls … = some r`:
+`none` exactly when the parser would record a `Duplicate…` error — a second `%start`, `%expect`,
+`%expect-rr`, `%actiontype`, a token given a precedence / an `%epp` / listed in `%avoid_insert` /
+`%implicit_tokens` twice). Render it canonically, one declaration per line (`renderDecls`), after ANY
+text `pre` (from which `parse_declarations` is started), followed by `%%` and ANY text. Then the model
+of `parse_declarations`, in ANY state, with ANY fuel above the length of the text, returns normally at
+the `%%`, records no error, and the state is the image `runDecls`: `%start` with the span of the name;
+every `%token` in the token set (at its first appearance, with the span of its text) and in
+`token_directives`; every precedence with the level = the number of precedence lines before it and
+its kind, in source order; the `%avoid_insert` / `%implicit_tokens` sets in source order (their
+tokens also in the token set); `%expect`/`%expect-rr` with the value of the digits and their span; the
+`%actiontype` span; the `%parse-param` type; every `%epp` with the span of the token as written, the
+UNESCAPED text and the span of the string literal. (`…_partial`: `%expect-unused` and
+`%parse-generics`, which the generator does not emit, are not in the abstract syntax; an `%epp` text
+is always written with double quotes.) -/
+theorem parse_declarations_roundtrip_partial (pre x : List Char) (ds : List RDecl) (kind : YaccParse.Kind)
+    (fuel : Nat) (st : YaccParse.St) (r : Nat × Nat × YaccParse.St) (hw : wfDecls kind ds = true)
+    (hf : byteLen (pre ++ (renderDecls ds ++ '%' :: '%' :: x)) < fuel)
+    (hr : runDecls (byteLen pre) 0 ds st = some r) :
+    parseDeclarations (pre ++ (renderDecls ds ++ '%' :: '%' :: x)) kind fuel (byteLen pre) st = .ok (r.1, r.2.2) ∧
+      r.1 = byteLen pre + byteLen (renderDecls ds) ∧ r.2.2.errs = st.errs := by
+  have hat : At (pre ++ (renderDecls ds ++ '%' :: '%' :: x)) (byteLen pre) (renderDecls ds ++ '%' :: '%' :: x) :=
+    Header.dropBytes_append _ _
+  have hlen := length_le_byteLen (pre ++ (renderDecls ds ++ '%' :: '%' :: x))
+  simp only [List.length_append, List.length_cons] at hlen
+  obtain ⟨h1, h2⟩ := len_decls ds
+  refine parseDeclarations_at ds st x r hat ?_ (by omega) hr
+  intro d hd
+  simp only [wfDecls, List.all_eq_true] at hw
+  exact ⟨hw d hd, by have := h2 d hd; omega⟩
+
+/-- **Round trip of a whole file** `declarations %% rules [%% programs]`, every `YaccKind`. For ANY
+well-formed, non-repetitive description (`wfDecls`, `wfRules`, `runFile … = some st'`), the model of
+`YaccParser::parse` on the canonical rendering — header parser included: it finds no `%grmtools`
+section — returns `Ok` at the end of the text, with NO error in the error vector, and the AST is
+exactly the image of the description: the declarations' image, then the rules' image on top of it
+(`image_productions`, `image_rule_names`, `image_token_names`, `image_spans` describe it), then the
+length of the programs text. The programs text is any text that does not begin with white space or a
+comment. -/
+theorem parse_roundtrip_partial (kind : YaccParse.Kind) (ds : List RDecl) (rs : List RRule) (post : List Char)
+    (st' : YaccParse.St) (hwd : wfDecls kind ds = true) (hwr : wfRules (isGrm kind) rs = true)
+    (hp : PostOK post) (hr : runFile (isGrm kind) ds rs post = some st') :
+    YaccParse.parse (renderFile (isGrm kind) ds rs post) kind
+      = .ok (byteLen (renderFile (isGrm kind) ds rs post), st'.ast) :=
+  parse_file (by simp [kindIs, isGrm]) ds rs post st' hwd hwr hp hr
+
+/-- **A whole file, read declaratively.** In the AST of a rendered file the productions are EXACTLY
+the productions of the description, in source order (spans forgotten: rule name, symbols with kind,
+`%prec`, action presence), where a bare name is a token iff a `%token` declaration OF THIS FILE names
+it (`declsDirs ds`, in order of first declaration), and a rule reference otherwise; quoted symbols
+are tokens. Together with `parse_roundtrip_partial`: `parse(render d).prods = d.prods`. -/
+theorem file_productions (g : Bool) (ds : List RDecl) (rs : List RRule) (post : List Char) (st' : YaccParse.St)
+    (h : runFile g ds rs post = some st') :
+    st'.ast.prods.map prodView = descProds ((declsDirs ds).foldl addName []) rs :=
+  runFile_productions h
+
+/-- **The image, read declaratively: productions.** If the rules section is entered in a state in
+which `dirs` are the names declared by `%token` and each of them is in the token set (what the
+`%token` loop establishes), then — spans forgotten — the productions the image adds to the AST are
+EXACTLY the productions of the description, in source order, each under the name of its rule, with
+its symbols in order (a quoted symbol is a token; a bare name is a token iff it is in `dirs`, otherwise
+a rule reference), its `%prec` token and the presence of its action: nothing is dropped, duplicated,
+reordered or added. The productions that were there before are untouched. -/
+theorem image_productions (dirs : List Name) (g : Bool) (rs : List RRule) (i : Nat) (st : YaccParse.St)
+    (hd : DirsOK dirs st) :
+    (runRules g i rs st).2.ast.prods.map prodView = st.ast.prods.map prodView ++ descProds dirs rs :=
+  (runRules_view dirs g rs i st hd).2
+
+/-- **The image, read declaratively: rules.** The rule names of the AST after the rules section are
+those it had before followed by the names of the description's rules in order of FIRST definition:
+a rule defined twice is one rule (its productions are all there, in order of appearance, by
+`image_productions`), no rule is invented. -/
+theorem image_rule_names (g : Bool) (rs : List RRule) (i : Nat) (st : YaccParse.St) :
+    (runRules g i rs st).2.ast.rules.map (·.1)
+      = (rs.map (·.name)).foldl addName (st.ast.rules.map (·.1)) :=
+  runRules_ruleNames g rs i st
+
+/-- **The image, read declaratively: tokens.** The token set after the rules section is the one
+before it followed by the tokens first seen in the rules — the quoted symbols and the `%prec`
+operands (quoted or bare), in source order, each once (`addName` = `IndexSet::insert`); a bare
+SYMBOL never enters the token set. -/
+theorem image_token_names (g : Bool) (rs : List RRule) (i : Nat) (st : YaccParse.St) :
+    (runRules g i rs st).2.ast.tokens.map (·.1)
+      = (rulesToks rs).foldl addName (st.ast.tokens.map (·.1)) :=
+  runRules_toks g rs i st
+
+/-- **Spans point at the right text.** In ANY text that contains the rendering of a well-formed
+description at byte `i`, if every name the AST held before was spelled by its span (`TextOK`:
+`src[span] = name` for every symbol of every production, every rule name, every member of the token
+set, `%start`), then the same holds of the image: every symbol occurrence, every rule's name span
+(first definition), every token first seen in the rules, and the implied start rule are recorded with
+the span of exactly their own text (for a quoted token: the text between the quotes). -/
+theorem image_spans (src : List Char) (pre post : List Char) (g : Bool) (rs : List RRule) (st : YaccParse.St)
+    (hsrc : src = pre ++ (renderRules g rs ++ post)) (hw : wfRules g rs = true)
+    (ht : TextOK src st.ast) : TextOK src (runRules g (byteLen pre) rs st).2.ast := by
+  subst hsrc
+  exact runRules_text g rs _ st post ht hw (Header.dropBytes_append _ _)
+
+/-- **Nothing else is.** Started on an AST without productions, rules and tokens (what
+`parse_declarations` leaves when no token is declared), the AST of a rendered description has no
+production, no rule and no token that the description does not have: every production of the AST is
+the image of a production of the description under its rule's name, every rule name is the name of a
+described rule, every token is a quoted symbol or a `%prec` operand of the description. -/
+theorem image_nothing_else (g : Bool) (rs : List RRule) (i : Nat) (st : YaccParse.St)
+    (h0 : st.ast.prods = [] ∧ st.ast.rules = [] ∧ st.ast.tokens = [] ∧ st.ast.tokenDirs = []) :
+    (∀ v ∈ (runRules g i rs st).2.ast.prods.map prodView,
+        ∃ r ∈ rs, ∃ p ∈ r.prods, v = descProd [] r.name p) ∧
+      (∀ n ∈ (runRules g i rs st).2.ast.rules.map (·.1), ∃ r ∈ rs, n = r.name) ∧
+      (∀ n ∈ (runRules g i rs st).2.ast.tokens.map (·.1), n ∈ rulesToks rs) := by
+  obtain ⟨h1, h2, h3, h4⟩ := h0
+  have hd : DirsOK [] st := ⟨h4, fun n hn => by simp at hn⟩
+  refine ⟨?_, ?_, ?_⟩
+  · rw [(runRules_view [] g rs i st hd).2, h1]
+    intro v hv
+    simp only [List.map_nil, List.nil_append] at hv
+    exact mem_descProds hv
+  · rw [runRules_ruleNames, h2]
+    intro n hn
+    have := mem_foldl_addName hn
+    simp only [List.map_nil, List.not_mem_nil, false_or, List.mem_map] at this
+    obtain ⟨r, hr, rfl⟩ := this
+    exact ⟨r, hr, rfl⟩
+  · intro n hn
+    have e := runRules_toks g rs i st
+    simp only [tokNames, h3, List.map_nil] at e
+    rw [e] at hn
+    have := mem_foldl_addName hn
+    simpa using this
+
+/-- **Rendering is injective up to what the AST keeps** (a corollary of `parse ∘ render = image`): two
+well-formed descriptions with the same rendering have the same productions (rule name, symbols with
+their kinds, `%prec`, action presence, in order), the same rules in order of first definition and the
+same tokens in order of first appearance. (The quote character of a token and the action text are
+not in the model's AST; for the action text see `action_text_roundtrip`.) -/
+theorem render_injective_on_image (dirs : List Name) (g : Bool) (rs rs' : List RRule)
+    (hw : wfRules g rs = true) (hw' : wfRules g rs' = true) (h : renderRules g rs = renderRules g rs') :
+    descProds dirs rs = descProds dirs rs' ∧
+      (rs.map (·.name)).foldl addName [] = (rs'.map (·.name)).foldl addName [] ∧
+      (rulesToks rs).foldl addName dirs = (rulesToks rs').foldl addName dirs := by
+  let st : YaccParse.St := { ast := { tokens := dirs.map (fun n => (n, (0, 0))), tokenDirs := dirs } }
+  have hd : DirsOK dirs st := by
+    refine ⟨rfl, fun n hn => ?_⟩
+    simp only [st, Ast.hasToken, List.any_map, List.any_eq_true]
+    simp only [List.contains_iff_mem] at hn
+    exact ⟨n, hn, by simp⟩
+  obtain ⟨kind, hkind⟩ : ∃ kind : YaccParse.Kind, isGrm kind = g := by
+    cases g
+    · exact ⟨.original, by decide⟩
+    · exact ⟨.grmtools, by decide⟩
+  subst hkind
+  have h1 := (parse_rules_roundtrip [] [] rs kind
+    (byteLen ([] ++ '%' :: '%' :: '\n' :: (renderRules (isGrm kind) rs ++ [])) + 1)
+    st hw (.inl rfl) (Nat.lt_succ_self _)).1
+  have h2 := (parse_rules_roundtrip [] [] rs' kind
+    (byteLen ([] ++ '%' :: '%' :: '\n' :: (renderRules (isGrm kind) rs' ++ [])) + 1)
+    st hw' (.inl rfl) (Nat.lt_succ_self _)).1
+  rw [h] at h1
+  rw [h1] at h2
+  have heq : runRules (isGrm kind) (byteLen ([] : List Char) + 3) rs (St.incNl 1 st)
+      = runRules (isGrm kind) (byteLen ([] : List Char) + 3) rs' (St.incNl 1 st) := by
+    injection h2
+  have hd' : DirsOK dirs (St.incNl 1 st) := hd
+  refine ⟨?_, ?_, ?_⟩
+  · have a := (runRules_view dirs (isGrm kind) rs (byteLen ([] : List Char) + 3) _ hd').2
+    have b := (runRules_view dirs (isGrm kind) rs' (byteLen ([] : List Char) + 3) _ hd').2
+    rw [heq] at a
+    rw [a] at b
+    simpa using b
+  · have a := runRules_ruleNames (isGrm kind) rs (byteLen ([] : List Char) + 3) (St.incNl 1 st)
+    have b := runRules_ruleNames (isGrm kind) rs' (byteLen ([] : List Char) + 3) (St.incNl 1 st)
+    rw [heq] at a
+    rw [a] at b
+    exact b
+  · have a := runRules_toks (isGrm kind) rs (byteLen ([] : List Char) + 3) (St.incNl 1 st)
+    have b := runRules_toks (isGrm kind) rs' (byteLen ([] : List Char) + 3) (St.incNl 1 st)
+    rw [heq] at a
+    rw [a] at b
+    have e : tokNames (St.incNl 1 st) = dirs := by
+      simp [tokNames, St.incNl, st, Function.comp_def]
+    rw [e] at b
+    exact b
+
+/-- **The span of a production.** The production the image records for a well-formed `pr` written
+at the end of `pre` (`mkProd … (runProd …)` is what `runRules` appends to `prods`, under any rule name,
+in any state) has the span that begins at the production's first byte and delimits `prodSpanText pr`:
+the items `%empty`, symbols, `%prec tok` with single spaces between them — WITHOUT the space after the
+last item when no action follows, and up to the `{` of the action, that space INCLUDED, when one
+follows (this is how `parse_rule` sets `pos_prod_end`; an empty production without `%empty` has the
+empty span at its `|`/`;`). -/
+theorem image_production_span (pre k : List Char) (rn : Name) (pr : RProd) (st : YaccParse.St)
+    (hw : wfProd pr = true) :
+    (mkProd rn (runProd (byteLen pre) pr st).2.1 (runProd (byteLen pre) pr st).1).span
+        = (byteLen pre, byteLen pre + byteLen (prodSpanText pr)) ∧
+      (sliceRange (pre ++ (renderProd pr ++ k)) (byteLen pre) (byteLen pre + byteLen (prodSpanText pr))
+        : Header.Res YErr _) = .ok (prodSpanText pr) := by
+  refine ⟨runProd_span rn _ pr st hw, ?_⟩
+  obtain ⟨tail, ht⟩ := prodSpanText_prefix pr
+  have hat : At (pre ++ (renderProd pr ++ k)) (byteLen pre) (prodSpanText pr ++ (tail ++ k)) := by
+    have := Header.dropBytes_append pre (renderProd pr ++ k)
+    rw [ht, List.append_assoc] at this
+    rw [ht, List.append_assoc]; exact this
+  exact hat.range
+
+/-- **The action text is read back exactly.** An action `{a}` with balanced braces, wherever it is
+in a text, is consumed by `parse_action` up to and including ITS closing brace (the braces inside `a`
+are paired off, newlines inside `a` are counted), and the text the parser slices out for the AST,
+`src[i+1 .. j]`, is `a`, character for character. -/
+theorem action_text_roundtrip (pre a rest : List Char) (fuel : Nat) (st : YaccParse.St) (ha : wfAction a = true)
+    (hf : a.length + 2 ≤ fuel) :
+    parseAction (pre ++ '{' :: (a ++ '}' :: rest)) fuel (byteLen pre) st
+        = .ok (byteLen pre + byteLen a + 2, St.incNl (YaccLex.countEol a) st) ∧
+      (sliceRange (pre ++ '{' :: (a ++ '}' :: rest)) (byteLen pre + 1) (byteLen pre + 1 + byteLen a)
+        : Header.Res YErr _) = .ok a := by
+  have hat : At (pre ++ '{' :: (a ++ '}' :: rest)) (byteLen pre) ('{' :: (a ++ '}' :: rest)) :=
+    Header.dropBytes_append _ _
+  exact ⟨parseAction_at st hat ha hf, (hat.adv1 (by decide)).range⟩
+
+end StageT
+
 /-! ### hypotheses are satisfiable / unit tests (labelled as tests, literals only) -/
 
 /-- test: the extracted start-rule constant is non-empty, so `start_rule_name_fresh` applies -/
@@ -456,5 +737,64 @@ example :
         avoidInsert := none, implicitTokens := none, epp := [], expect := none, expectrr := none }
       .original).map (fun g => (g.startProd, g.prods, g.eof)) = some (1, [[.tok 0], [.rule 1]], 1) := by
   decide
+
+/-! #### tests of Stage T (literals only) -/
+
+section StageTTests
+open GrmVerif.YaccRender GrmVerif.YaccParse
+
+/-- test description: two rules, `S` defined twice, an empty production, `%empty`, a `%prec`, quoted
+tokens of both kinds, a bare reference, an action with nested braces and a newline -/
+def exampleRules : List RRule :=
+  [ { name := "S".toList,
+      first := { syms := [.bare "A".toList, .quoted '\'' "+".toList], prec := some (.quoted '"' "p".toList),
+                 action := some "$$ = { f({1}) };\n".toList },
+      more := [{}] },
+    { name := "A".toList, first := { empty := true } },
+    { name := "S".toList, first := { syms := [.quoted '"' "y".toList, .bare "T".toList] } } ]
+
+/-- test: the description satisfies the hypothesis of `parse_rules_roundtrip` -/
+example : wfRules false exampleRules = true := by decide
+
+/-- test: its rendering -/
+example : String.ofList (renderRules false exampleRules)
+    = "S: A '+' %prec \"p\" {$$ = { f({1}) };\n} | ;\nA: %empty ;\nS: \"y\" T ;\n" := by decide
+
+/-- test: the parse of the rendering, evaluated through the theorem: no error, and the productions,
+rules and tokens of the AST (`T` was declared by `%token`, so the bare `T` is a token; `A` is not) -/
+example :
+    let st : YaccParse.St := { ast := { tokens := [("T".toList, (7, 8))], tokenDirs := ["T".toList] } }
+    let src := "%token T\n".toList ++ '%' :: '%' :: '\n' :: (renderRules (isGrm .eco) exampleRules ++ [])
+    ∃ i st', parseRules src .eco (Header.byteLen src + 1) 9 st = .ok (i, st') ∧ i = Header.byteLen src ∧
+      st'.ast.prods.map prodView =
+        [⟨"S".toList, [(false, "A".toList), (true, "+".toList)], some "p".toList, true⟩,
+         ⟨"S".toList, [], none, false⟩, ⟨"A".toList, [], none, false⟩,
+         ⟨"S".toList, [(true, "y".toList), (true, "T".toList)], none, false⟩] ∧
+      st'.ast.rules = [("S".toList, (12, 13)), ("A".toList, (55, 56))] ∧
+      st'.ast.tokens.map (·.1) = ["T".toList, "+".toList, "p".toList, "y".toList] := by
+  intro st src
+  have h := parse_rules_roundtrip "%token T\n".toList [] exampleRules .eco (Header.byteLen src + 1) st
+    (by decide) (.inl rfl) (Nat.lt_succ_self _)
+  refine ⟨_, _, h.1, ?_, ?_, ?_, ?_⟩ <;> decide
+
+/-- test: a whole file with declarations of six kinds satisfies the hypotheses of
+`parse_roundtrip_partial`, and its image has the expected declarations -/
+def exampleDecls : List RDecl :=
+  [.token (.bare "T".toList) [.quoted '\'' "+".toList], .start "S".toList,
+   .prec .left (.quoted '\'' "+".toList) [], .prec .nonassoc (.bare "T".toList) [], .expect "2".toList,
+   .avoidInsert (.bare "T".toList) [], .parseParam "p".toList "&mut u8".toList]
+
+example : wfDecls .eco exampleDecls = true ∧ wfRules false exampleRules = true ∧
+    (match runFile false exampleDecls exampleRules [] with
+      | none => false
+      | some st =>
+        st.ast.start.map (·.1) == some "S".toList && st.ast.tokenDirs == ["T".toList, "+".toList] &&
+        st.ast.precs.map (fun p => (p.1, p.2.1)) == [("+".toList, 0), ("T".toList, 1)] &&
+        st.ast.expect.map (·.1) == some 2 && (st.ast.avoidInsert.getD []).map (·.1) == ["T".toList] &&
+        st.ast.parseParam == some "&mut u8".toList &&
+        st.ast.tokens.map (·.1) == ["T".toList, "+".toList, "p".toList, "y".toList] && st.errs.length == 0) = true := by
+  refine ⟨by decide, by decide, by decide⟩
+
+end StageTTests
 
 end GrmVerif.C10
